@@ -251,6 +251,8 @@ def replay(beh, tier="quick", seed=0, opts=None):
                                     + (":folded" if getattr(l, "num_folds", 1) > 1 else ""))
             if opts.get("grads") and beh.get("grads"):
                 check_grads(ses, beh, built, rows, floating, targets)
+            if opts.get("grads") and beh.get("xgrads") and floating:
+                check_xgrads(ses, beh, built, rows)
             if opts.get("query") and beh.get("qtables"):
                 check_queries(ses, beh, built, rows, h)
             if opts.get("sample"):
@@ -453,6 +455,69 @@ def check_grads(ses, beh, built, rows, floating, targets):
             if bad or not close(obs_lin, want, rtol=1e-8):
                 ses.fail("grad_value", pool=i, op=ses.ops[i], th=g["th"],
                          detail=f"observed {obs_lin.tolist()} expected {want.tolist()}"[:600])
+
+
+def check_xgrads(ses, beh, built, rows):
+    """autograd d out[q,o,u] / d x[q,v] of base circuit 1 against TLC's exact first partials
+    (the denotation of differentiate(c, 1)); variables outside an output's scope have gradient 0."""
+    sem = ses.flags[0]
+    cc = ses.compiled.get(0)
+    if cc is None:
+        return
+    xg = beh["xgrads"][0]
+    scopes = xg["scopes"]
+    x = built.batch(rows, floating=True).clone().requires_grad_(True)
+    try:
+        out = cc(x)
+    except Exception as e:  # pylint: disable=broad-except
+        ses.fail("eval_raise", pool=0, op=ses.ops[0], detail="input requiring grad: " + repr(e)[:300])
+        return
+    want = expected_array(xg["table"], list(range(len(rows))))          # (B, sum(|scope_o| + 1), K)
+    f = expected_array(beh["expect"][0]["table"], list(range(len(rows))))
+    zrows = set()
+    if sem != "sum-product":
+        zrows = {q for q, z in enumerate(beh.get("zerorows") or []) if z}
+    keep = np.array([q not in zrows for q in range(len(rows))])
+    if tuple(out.shape) != f.shape:
+        ses.fail("shape", pool=0, op=ses.ops[0], detail=f"output shape {tuple(out.shape)} expected {f.shape}")
+        return
+    V = x.shape[1]
+    p = 0
+    for o, sc in enumerate(scopes):
+        for u in range(out.shape[2]):
+            val = out[:, o, u]
+            parts = [val.real, val.imag] if val.is_complex() else [val]
+            d = np.zeros((len(rows), V), dtype=np.complex128)
+            for pi, part in enumerate(parts):
+                if not part.requires_grad:
+                    continue
+                gr = torch.autograd.grad(part.sum(), x, retain_graph=True, allow_unused=True)[0]
+                if gr is not None:
+                    d += gr.detach().numpy() * (1j if pi == 1 else 1.0)
+            ses.res["evals"] += 1
+            fo = f[:, o, u]
+            if sem != "sum-product":
+                ok_rows = (np.abs(fo) > 0) & keep
+                if not np.all(np.isfinite(d[np.abs(fo) > 0])):
+                    ses.fail("grad_nonfinite", pool=0, op=ses.ops[0], th=["x", o + 1, u + 1],
+                             detail=f"non-finite input gradient where the value is non-zero: {d.tolist()}"[:400])
+                    continue
+                with np.errstate(invalid="ignore"):
+                    d = d * fo[:, None]
+            else:
+                ok_rows = np.ones(len(rows), dtype=bool)
+                if not np.all(np.isfinite(d)):
+                    ses.fail("grad_nonfinite", pool=0, op=ses.ops[0], th=["x", o + 1, u + 1],
+                             detail=f"non-finite input gradient: {d.tolist()}"[:400])
+                    continue
+            exp = np.zeros((len(rows), V), dtype=np.complex128)
+            for k, v in enumerate(sc):
+                exp[:, built.ids[int(v) - 1]] = want[:, p + k, u]
+            obs = np.where(ok_rows[:, None], d, exp)
+            if not close(obs, exp, rtol=1e-8):
+                ses.fail("grad_value", pool=0, op=ses.ops[0], th=["x", o + 1, u + 1],
+                         detail=f"d out[{o}][{u}] / d x: observed {obs.tolist()} expected {exp.tolist()}"[:600])
+        p += len(sc) + 1
 
 
 def zero_rows(beh, rows):
